@@ -25,6 +25,7 @@ PINNED_EXPECT = [('C10.R1', 'emd.spectra.hilberthuang', 'class -> bin'),
 HH = 'emd.spectra.hilberthuang'
 HH1 = 'emd.spectra.hilberthuang_1d'
 ES = (2, 3, 5)
+ES_THOROUGH = (2, 3, 4, 5, 7, 9, 12)
 
 
 def run(ctx):
@@ -135,7 +136,7 @@ def rule_classmap_2d(ctx, rid):
             table = {}
             problem = None
             try:
-                for E in ES:
+                for E in (ES_THOROUGH if ctx.tier == 'thorough' else ES):
                     for p in classes(E):
                         bind = {S('infr'): p, S('inam'): 'amp'}
                         el = ElemEval(E, bind, edges_terms=(edges,))
@@ -172,7 +173,7 @@ def rule_classmap_2d(ctx, rid):
                 ctx.violation(rid, fi, c, problem, expected='below/at-last/above/nan dropped; in(k) -> row k-1',
                               found=problem)
             else:
-                ctx.passed(rid, fi, c, '%d class instances over E in %s' % (len(table), list(ES)))
+                ctx.passed(rid, fi, c, '%d class instances over E in %s' % (len(table), list(ES_THOROUGH if ctx.tier == 'thorough' else ES)))
             # time coordinate
             c2 = 'mode=%s, %s: time coordinate is the untouched sample index under the same filter' % (
                 mode, 'sparse' if sparse else 'dense')
@@ -327,7 +328,7 @@ def rule_classmap_1d(ctx, rid):
         table = {}
         problem = None
         try:
-            for E in ES:
+            for E in (ES_THOROUGH if ctx.tier == 'thorough' else ES):
                 el0 = ElemEval(E, {}, edges_terms=(edges,))
                 bounds = [el0.ev(a) for a in it[2]]
                 rng = range(*bounds)
@@ -355,7 +356,7 @@ def rule_classmap_1d(ctx, rid):
         if problem:
             ctx.violation(rid, fi, c, problem)
         else:
-            ctx.passed(rid, fi, c, '%d class instances over E in %s' % (len(table), list(ES)))
+            ctx.passed(rid, fi, c, '%d class instances over E in %s' % (len(table), list(ES_THOROUGH if ctx.tier == 'thorough' else ES)))
             result = table
         # exponent
         inner = val
